@@ -10,6 +10,8 @@ import (
 	"sync/atomic"
 	"testing"
 	"time"
+
+	"verifsim/simrt"
 )
 
 // TestWorker is the entry point of a simulation worker process. Protocol
@@ -35,10 +37,10 @@ func TestWorker(t *testing.T) {
 		}
 	}
 	go func() {
-		last := progress.Load()
+		last := progress.Load() + int64(simrt.Heartbeat.Load())
 		for {
 			time.Sleep(wd)
-			now := progress.Load()
+			now := progress.Load() + int64(simrt.Heartbeat.Load())
 			if now == last {
 				fmt.Printf("WATCHDOG %d\n", curSeed.Load())
 				buf := make([]byte, 4<<20)
